@@ -32,4 +32,13 @@ def run(ck):
 
 
 def replay(ck, path):
+    import json
+
+    data = json.load(open(path))
+    specs = [c["witness"]["spec"] for c in data.get("cases", []) if c.get("witness") and "spec" in c["witness"]]
+    if specs:
+        from vf.props import c01
+
+        ck.merge(c01.work({"programs": specs})["C06"])
+        return ck.finish(rule="replay of " + path)
     return infer_replay(ck, path, "C06")
